@@ -16,7 +16,7 @@ ARGS = {
     "from-bip39-seed": ["128-hex", "126-hex", "130-hex", "128-nonhex"],
     "from-entropy-hex": ["32-hex", "40-hex", "48-hex", "56-hex", "64-hex", "31-hex", "33-hex", "65-hex", "32-nonhex", "32-chars-with-blanks"],
 }
-ACCOUNTS = ["default", "0", "5", "2^31-2", "2^31-1", "2^31", "-1", "x"]
+ACCOUNTS = ["default", "0", "5", "2^31-2", "2^31-1", "2^31", "-1", "x", "+5", " 7", "1_0"]
 BOUNDS = ["-1", "0", "1", "3", "2^31-1", "2^31", "2^31+1", "2^32-2", "2^32-1", "x"]
 FILES = ["none", "absent", "existing", "dir", "symlink-to-file", "dangling-symlink", "parent-missing", "empty-string",
          "symlink-rel-in-subdir", "symlink-up", "symlink-abs-to-file", "symlink-to-dir", "existing-dotdot", "absent-in-subdir"]
